@@ -286,7 +286,7 @@ def _worker(args):
             pass
     if verdict == "unknown" or second_opinion:
         others = []
-        cli_ms = min(timeout_ms, 30000)
+        cli_ms = min(timeout_ms, 30000) if not second_opinion or verdict == "unknown" else 6000
         for label, cmd in (("cvc5", ["/usr/bin/cvc5", f"--tlimit={cli_ms}"]),
                            ("z3-4.8", ["/usr/bin/z3", f"-T:{max(1, cli_ms // 1000)}"])):
             if not os.path.exists(cmd[0]):
